@@ -6,7 +6,9 @@ CONSTANTS
   DiagCap = FALSE
   PathOnly = FALSE
   AbruptExit = FALSE
+  SpawnOnFull = FALSE
   StartMain = TRUE
+  ReqTail = 0
   URIs <- ThreeUris
   Alphabet <- LoadAlphabet
 INVARIANTS EmitFinal
